@@ -29,7 +29,8 @@ import (
 
 type pop struct {
 	E    int    `json:"e"`              // 1 | 2 : Conn1 | Conn2
-	Op   string `json:"op"`             // w r c sw sr ws wj rs rj
+	Op   string `json:"op"`             // w r c C sw sr sd ws wj rs rj   (C = PipeConns.Close, sd = SetDeadline)
+	Str  bool   `json:"str,omitempty"`  // write through WriteString
 	Len  int    `json:"len,omitempty"`  // write payload: Len bytes of Fill …
 	Fill int    `json:"fill,omitempty"` //
 	Data hlib.B `json:"data,omitempty"` // … or this literal
@@ -342,13 +343,23 @@ func runPipe(d desc) hlib.Case {
 		}
 		recs = append(recs, fmt.Sprintf("mkPR %s %s %s %s", hlib.Bool(e == 1), op, obs, snap))
 	}
+	useStr := false
 	doWrite := func(e int, p []byte, split bool) {
 		blocks, forever := sh.writeBlocks(e)
 		if wsoon[e] {
 			split = false // the timer would race with the observation "parked"
 		}
 		ch := make(chan wresT, 1)
-		go func() { n, err := conn[e].Write(p); ch <- wresT{n, err} }()
+		viaString := useStr
+		go func() {
+			if viaString { // pipeConn.WriteString (io.StringWriter): the string's bytes must be copied, not aliased
+				n, err := conn[e].(io.StringWriter).WriteString(string(p))
+				ch <- wresT{n, err}
+				return
+			}
+			n, err := conn[e].Write(p)
+			ch <- wresT{n, err}
+		}()
 		opn := "XWrite"
 		wait := longWait
 		if split {
@@ -493,7 +504,12 @@ func runPipe(d desc) hlib.Case {
 			}
 			p := payload(o)
 			total += len(p)
+			useStr = o.Str
+			if o.Str {
+				sig["w:WriteString"] = true
+			}
 			doWrite(e, p, o.Op == "ws")
+			useStr = false
 		case "r", "rs":
 			if pr[e] != nil {
 				continue
@@ -505,6 +521,23 @@ func runPipe(d desc) hlib.Case {
 			joinRead(e)
 		case "c":
 			doClose(e)
+		case "C": // PipeConns.Close() instead of net.Conn.Close()
+			pc.Close()
+			sh.stopped = true
+			settle()
+			emit(e, "XClose", "ObNil")
+			sig["pc.Close"] = true
+		case "sd": // SetDeadline = SetReadDeadline + SetWriteDeadline of this end
+			if pw[e] != nil || pr[e] != nil {
+				continue
+			}
+			conn[e].SetDeadline(dlTime(o.K))
+			sh.d[wd(e)].wfire = o.K == "past" || o.K == "soon"
+			sh.d[rd(e)].rfire = o.K == "past" || o.K == "soon"
+			wsoon[e], rsoon[e] = o.K == "soon", o.K == "soon"
+			emit(e, "(XSetR "+kcoq(o.K)+")", "ObNil")
+			emit(e, "(XSetW "+kcoq(o.K)+")", "ObNil")
+			sig["sd:"+o.K] = true
 		case "sw":
 			if pw[e] != nil {
 				continue
@@ -959,6 +992,8 @@ func runLnStress(d desc) hlib.Case {
 	ln := fasthttputil.NewInmemoryListener()
 	var mu sync.Mutex
 	var dl, ac, post []string
+	dialed := map[int]net.Conn{}
+	acceptedC := map[int]net.Conn{}
 	naccepted := 0
 	fire := make(chan struct{})
 	var fireOnce sync.Once
@@ -970,10 +1005,10 @@ func runLnStress(d desc) hlib.Case {
 			c, err := ln.DialWithLocalAddr(idAddr(i))
 			mu.Lock()
 			dl = append(dl, fmt.Sprintf("(%d, %s)", i, hlib.Bool(err == nil)))
-			mu.Unlock()
 			if err == nil {
-				c.Close()
+				dialed[i] = c
 			}
+			mu.Unlock()
 		}(i)
 	}
 	for j := 0; j < d.NA; j++ {
@@ -989,6 +1024,7 @@ func runLnStress(d desc) hlib.Case {
 					return
 				}
 				ac = append(ac, fmt.Sprintf("(Some %d)", connID(c)))
+				acceptedC[connID(c)] = c
 				naccepted++
 				if naccepted >= d.MidC {
 					fireOnce.Do(func() { close(fire) })
@@ -1024,12 +1060,84 @@ func runLnStress(d desc) hlib.Case {
 	}
 	mu.Lock()
 	defer mu.Unlock()
+	// "returning its peer": every successful Dial is really connected to the conn its Accept returned
+	for id, c := range dialed {
+		if a, ok := acceptedC[id]; ok {
+			if !peerOK(a, c, id) {
+				post = append(post, "true")
+			}
+			a.Close()
+		}
+		c.Close()
+	}
 	nok := strings.Count(strings.Join(dl, ""), "true")
 	return hlib.Case{
 		Coq:  fmt.Sprintf("CLnStress %s %s %s", hlib.List(dl), hlib.List(ac), hlib.List(post)),
 		Sig:  fmt.Sprintf("lnstress:%d:%d:%v", d.ND, d.NA, nok*4/(d.ND+1)),
 		Kind: "lnstress",
 		Size: d.ND,
+	}
+}
+
+// runLnFull: the conns queue (capacity 1024) is full, further Dials park in their send; Close must release every one of
+// them with an error, and none of the 1024 queued ones may succeed either (nobody accepted them).
+func runLnFull(d desc) hlib.Case {
+	ln := fasthttputil.NewInmemoryListener()
+	_, capacity := fasthttputil.VerifListenerPending(ln)
+	total := capacity + d.ND
+	type dr struct {
+		id int
+		ok bool
+	}
+	res := make(chan dr, total)
+	for i := 0; i < total; i++ {
+		go func(i int) {
+			_, err := ln.DialWithLocalAddr(idAddr(i))
+			res <- dr{i, err == nil}
+		}(i)
+		if i == capacity-1 { // let the queue fill up before the extra dials start
+			t0 := time.Now()
+			for time.Since(t0) < longWait {
+				if n, _ := fasthttputil.VerifListenerPending(ln); n == capacity {
+					break
+				}
+				time.Sleep(100 * time.Microsecond)
+			}
+		}
+	}
+	time.Sleep(5 * time.Millisecond)
+	pending, _ := fasthttputil.VerifListenerPending(ln)
+	var post []string
+	post = append(post, hlib.Bool(pending != capacity)) // exactly `capacity` are queued, the others are parked
+	// one Accept makes room for exactly one parked Dial
+	var ac []string
+	if d.NA > 0 {
+		c, err := ln.Accept()
+		if err == nil {
+			ac = append(ac, fmt.Sprintf("(Some %d)", connID(c)))
+		} else {
+			ac = append(ac, "None")
+		}
+	}
+	ln.Close()
+	var dl []string
+	deadline := time.After(10 * time.Second)
+	for i := 0; i < total; i++ {
+		select {
+		case r := <-res:
+			dl = append(dl, fmt.Sprintf("(%d, %s)", r.id, hlib.Bool(r.ok)))
+		case <-deadline:
+			post = append(post, "true") // a Dial never returned
+			i = total
+		}
+	}
+	_, e1 := ln.Dial()
+	post = append(post, hlib.Bool(e1 == nil))
+	return hlib.Case{
+		Coq:  fmt.Sprintf("CLnStress %s %s %s", hlib.List(dl), hlib.List(ac), hlib.List(post)),
+		Sig:  fmt.Sprintf("lnfull:%d:%d", d.ND, d.NA),
+		Kind: "lnfull",
+		Size: total,
 	}
 }
 
@@ -1054,6 +1162,8 @@ func run(d desc) hlib.Case {
 		return runLn(d)
 	case "lnstress":
 		return runLnStress(d)
+	case "lnfull":
+		return runLnFull(d)
 	case "caps":
 		return runCaps()
 	}
@@ -1062,7 +1172,7 @@ func run(d desc) hlib.Case {
 
 // ---- generators ----
 func genWrite(r *rand.Rand, e int, op string) pop {
-	o := pop{E: e, Op: op}
+	o := pop{E: e, Op: op, Str: r.Intn(5) == 0}
 	switch r.Intn(12) {
 	case 0:
 		// empty write
@@ -1121,7 +1231,14 @@ func genPipe(r *rand.Rand) desc {
 			ops = append(ops, o)
 		case x < 76 || (style == 1 && x < 88):
 			k := hlib.Pick(r, kinds)
-			if r.Intn(2) == 0 {
+			if r.Intn(4) == 0 {
+				if sh.d[wd(e)].wpark || sh.d[rd(e)].rpark {
+					continue
+				}
+				sh.d[wd(e)].wfire = k == "past" || k == "soon"
+				sh.d[rd(e)].rfire = k == "past" || k == "soon"
+				ops = append(ops, pop{E: e, Op: "sd", K: k})
+			} else if r.Intn(2) == 0 {
 				if sh.d[wd(e)].wpark {
 					continue
 				}
@@ -1139,7 +1256,11 @@ func genPipe(r *rand.Rand) desc {
 				continue
 			}
 			sh.stopped = true
-			ops = append(ops, pop{E: e, Op: "c"})
+			if r.Intn(3) == 0 {
+				ops = append(ops, pop{E: e, Op: "C"})
+			} else {
+				ops = append(ops, pop{E: e, Op: "c"})
+			}
 		case x < 90 || style == 3:
 			// split-phase: start a call that parks, then something that may release it, then join
 			if r.Intn(2) == 0 {
@@ -1299,6 +1420,12 @@ func corpus() []desc {
 		{Kind: "pstress", Seed: 7, NW: 40, WriterCloses: true},
 		{Kind: "pstress", Seed: 8, NW: 40, WriterCloses: false, CloseAfter: 5},
 		{Kind: "lnstress", ND: 16, NA: 3, MidC: 8},
+		// the accept queue is full: extra Dials park in their send and are released by Close / by one Accept
+		{Kind: "lnfull", ND: 3, NA: 0},
+		{Kind: "lnfull", ND: 2, NA: 1},
+		// WriteString, SetDeadline (both directions of an end at once), PipeConns.Close
+		{Kind: "pipe", Fin: true, Ops: []pop{{E: 1, Op: "w", Data: hlib.B("abc"), Str: true}, {E: 1, Op: "w", Len: 3000, Fill: 120, Str: true}, rdo(2, 2), rdo(2, 8192),
+			{E: 2, Op: "sd", K: "past"}, rdo(2, 4), w(2, "1"), w(2, "2"), w(2, "3"), w(2, "4"), w(2, "5"), {E: 2, Op: "sd", K: "zero"}, {E: 1, Op: "C"}, w(1, "x"), rdo(1, 10), rdo(1, 10)}},
 		{Kind: "lnstress", ND: 8, NA: 2, MidC: 0},
 	}
 	return c
